@@ -396,7 +396,7 @@ Fixpoint drive (one_rr : bool) (s : st) (ws : list wmsg) : result * nat :=
       | (s', None) =>
           if done s' then
             (* after the loop: "if query.keyring and r is not None and not r.had_tsig: raise
-               FormError('missing TSIG')" (only reachable for the up-to-date answer since 388fa96) *)
+               FormError('missing TSIG')" (only reachable for the up-to-date answer since 4883021) *)
             if req_tsig s' && negb (w_tsig w) then (Error eMissingTSIG (pub s'), 1%nat)
             else (Done (pub s'), 1%nat)
           else let '(r, n) := drive one_rr s' rest in (r, S n)
